@@ -25,8 +25,8 @@ def model_copy(ctx, args, kwargs):
 
 
 model_copy.modifies = []
-CALLS = dict(BASE_CALLS, **{"tag_value.model_copy": model_copy,
-                            "plot_log_repo.store_tag_values": logged("store_tag_values")})
+CALLS = dict(BASE_CALLS, **{"*.model_copy": model_copy,
+                            "*.store_tag_values": logged("store_tag_values")})
 TYPES = {"self": "FromEngine", "engine_data": "EngineData", "EngineData._run_data": "RunData | None",
          "EngineData.tags_info": "TagsInfo", "TagsInfo.map": "dict[str, TagValue]", "EngineData.data_log_interval_seconds": "float",
          "RunData.latest_persisted_tick_time": "float | None", "RunData.run_id": "str", "tag_values_to_persist": "list[TagValue]"}
